@@ -278,17 +278,30 @@ static void pick_next(void)
 		use_replay = replay_pos && *replay_pos;
 	}
 	if (use_replay) {
+		/* a token that does not fit the tree ends a replay; a prefix (policy 3) is simply dropped
+		 * from there on and the run continues non-preemptively */
+		int fits = 1;
 		while (replay_pos && *replay_pos == ' ') replay_pos++;
-		if (!replay_pos || !*replay_pos) { end_run(VS_REPLAY_DIVERGED); return; }
-		char *e;
-		long tid = strtol(replay_pos, &e, 10);
-		if (e == replay_pos || tid < 0 || tid >= nthreads) { end_run(VS_REPLAY_DIVERGED); return; }
-		if (*e == '!') { flag = 1; e++; } else if (*e == '~') { flag = 2; e++; }
-		replay_pos = e;
-		n = threads[tid];
-		if (flag == 2) {
-			if (!(n->wait_kind == W_CV && mtx_get(n->cv_mutex)->owner == -1) && n->wait_kind != W_FUTEX) { end_run(VS_REPLAY_DIVERGED); return; }
-		} else if (!enabled(n) || killed(n)) { end_run(VS_REPLAY_DIVERGED); return; }
+		if (!replay_pos || !*replay_pos) fits = 0;
+		char *e = NULL;
+		long tid = -1;
+		if (fits) {
+			tid = strtol(replay_pos, &e, 10);
+			if (e == replay_pos || tid < 0 || tid >= nthreads) fits = 0;
+		}
+		if (fits) {
+			if (*e == '!') { flag = 1; e++; } else if (*e == '~') { flag = 2; e++; }
+			n = threads[tid];
+			if (flag == 2) {
+				if (!(n->wait_kind == W_CV && mtx_get(n->cv_mutex)->owner == -1) && n->wait_kind != W_FUTEX) fits = 0;
+			} else if (!enabled(n) || killed(n)) fits = 0;
+		}
+		if (fits) replay_pos = e;
+		else if (policy == 3) { replay_pos = NULL; use_replay = 0; n = NULL; flag = 0; }
+		else { end_run(VS_REPLAY_DIVERGED); return; }
+	}
+	if (use_replay) {
+		/* n, flag chosen above */
 	} else {
 		if (ne == 0) {
 			/* maybe a spurious condvar wake-up is the only way on: not a real way out */
